@@ -218,17 +218,92 @@ theorem mapE_error {α β ε} {f : α → Except ε β} : ∀ {xs : List α} {e 
 theorem wellIndexedOcc_script {S : List Stmt} (w1 : WellIndexed S) : WellIndexedOcc (scriptOcc S) := by
   intro s hs; exact ⟨(w1 s hs).1, (w1 s hs).2, scriptOcc_leads S s hs⟩
 
+/-! ### The per-statement defects introduced with the `fix:` commits 3f601b8 / d65c5fa -/
+
+/-- Within one statement a name is used as a called function and as something else. -/
+def StmtClash (stmt : Stmt) : Prop :=
+  ∃ s1 ∈ stmtOcc stmt, ∃ s2 ∈ stmtOcc stmt, s1.type = .function ∧ s2.type ≠ .function ∧ s1.name = s2.name
+
+/-- The names a statement assigns (its left-hand-side variables), each once. -/
+def definedNames (stmt : Stmt) : List (Option String) :=
+  firstApp (((stmtOcc stmt).filter (fun s => s.type = .endogenous)).map (·.name))
+
+/-- An equation statement assigns exactly one variable. -/
+def DefinesOne : Stmt → Prop
+  | .eqn ts e c => (definedNames (.eqn ts e c)).length = 1
+  | .verb _ _ => True
+
+def BadStmt (S : List Stmt) : Prop := ∃ stmt ∈ S, StmtClash stmt ∨ ¬ DefinesOne stmt
+
+theorem stmtClash_of_clashT {e c : String} {ts : List Term} (h : ClashT ts) : StmtClash (.eqn ts e c) := by
+  obtain ⟨t1, h1, t2, h2, hf, hnf, hnv, hn⟩ := h
+  refine ⟨termSymbol e c t1, mem_termSyms h1 (by rw [hf]; simp), termSymbol e c t2, mem_termSyms h2 hnv, hf, hnf, ?_⟩
+  simp [termSymbol_name, hn]
+
+theorem termSyms_endogenous_eq {e c : String} {ts : List Term} {s : Symbol} (hs : s ∈ termSyms e c ts)
+    (ht : s.type = .endogenous) : s.equation = some e ∧ s.code = some c := by
+  unfold termSyms at hs
+  obtain ⟨t, _, rfl⟩ := List.mem_map.1 hs
+  have : t.type = .endogenous := ht
+  simp [termSymbol, this]
+
+/-- The symbols the one-variable check counts are exactly the distinct assigned names. -/
+theorem defined_count {e c : String} {ts : List Term} {G : List Symbol}
+    (h : foldE addSym [] (termSyms e c ts) = .ok G) :
+    (G.filter isDefined).length = (definedNames (.eqn ts e c)).length := by
+  obtain ⟨hk, hnd, hs, hc⟩ := fold_from_empty h
+  have h1 : (G.filter isDefined).length = ((G.filter isDefined).map (·.name)).length := by simp
+  rw [h1]
+  apply List.Perm.length_eq
+  apply (List.perm_ext_iff_of_nodup ?_ (nodup_firstApp _)).2
+  · intro k
+    simp only [definedNames, mem_firstApp, List.mem_map, List.mem_filter, stmtOcc]
+    constructor
+    · rintro ⟨g, ⟨hg, hd⟩, rfl⟩
+      have hgt : g.type = .endogenous := by
+        unfold isDefined at hd; simp only [Bool.and_eq_true, decide_eq_true_eq] at hd; exact hd.1
+      obtain ⟨s, hs', hst⟩ := (hs g hg).typeAtt
+      obtain ⟨hs1, hs2⟩ := List.mem_filter.1 hs'
+      exact ⟨s, ⟨hs1, by simp [hst, hgt]⟩, by simpa using hs2⟩
+    · rintro ⟨s, ⟨hs1, hs2⟩, rfl⟩
+      have hst : s.type = .endogenous := by simpa using hs2
+      obtain ⟨g, hg, hgn⟩ := hc s hs1
+      have hmem : s ∈ (termSyms e c ts).filter (fun x => x.name = g.name) := List.mem_filter.2 ⟨hs1, by simp [hgn]⟩
+      have hle := (hs g hg).typeLe s hmem
+      rw [hst] at hle
+      have hgt := typeLe_of_endogenous hle
+      have hge := (hs g hg).eqAll s hmem e (termSyms_endogenous_eq hs1 hst).1
+      refine ⟨g, ⟨hg, ?_⟩, hgn⟩
+      unfold isDefined; simp [hgt, hge]
+  · exact ((List.filter_sublist).map _).nodup hnd
+
 /-- `s` belongs to the occurrences summarised by one of the statement-level entries `gs`. -/
 def CoveredBy (S : List Stmt) (gs : List Symbol) (s : Symbol) : Prop :=
   ∃ g' ∈ gs, ∃ o, Summ g' o ∧ (∀ x ∈ o, x ∈ scriptOcc S) ∧ s ∈ o
+
+/-- A statement whose own `addSym` fold fails: the failing `combine` is between two occurrences of the script. -/
+theorem stmt_fold_error_class {S : List Stmt} {ts : List Term} {q c : String} {x : Err}
+    (w1 : WellIndexed S) (hst : Stmt.eqn ts q c ∈ S) (hfold : foldE addSym [] (termSyms q c ts) = .error x) :
+    (x = .symbolError ∧ KindConflictOcc (scriptOcc S)) ∨ (x = .parserError ∧ DoubleDefOcc (scriptOcc S)) := by
+  have wo := wellIndexedOcc_script w1
+  obtain ⟨pre, s, post, d, old, h1, h2, h3, h4⟩ := foldE_addSym_error _ _ _ hfold
+  have hsub : ∀ y ∈ termSyms q c ts, y ∈ scriptOcc S := fun y hy => stmtOcc_subset hst y hy
+  have hs_mem : s ∈ scriptOcc S := hsub s (by rw [h1]; simp)
+  obtain ⟨_, _, hsumm, _⟩ := fold_from_empty h2
+  obtain ⟨holdn, holdm⟩ := findSym_some h3
+  obtain ⟨r1, r2, r3⟩ := rep_of_summ wo (hsumm old holdm) (by
+    intro y hy; apply hsub; rw [h1]
+    exact List.mem_append_left _ (List.mem_filter.1 hy).1)
+  exact combine_error_rep r1 (rep_of_occ wo hs_mem) holdn r2 r3 h4
 
 open Classical in
 /-- **Which error.**  A rejected script raises SymbolError and has a kind conflict, or raises ParserError and has a
     double definition — nothing else (no TypeError, no AssertionError) under the two guards. -/
 theorem parseModel_error_class {S : List Stmt} {e : Err} (h : parseModel S = .error e)
-    (w1 : WellIndexed S) (w2 : NoFunctionClash S) :
-    (e = .symbolError ∧ KindConflictOcc (scriptOcc S)) ∨ (e = .parserError ∧ DoubleDefOcc (scriptOcc S)) := by
-  have hok := stmtOK_of_guards w1 w2
+    (w1 : WellIndexed S) :
+    (e = .symbolError ∧ KindConflictOcc (scriptOcc S)) ∨
+    (e = .parserError ∧ (DoubleDefOcc (scriptOcc S) ∨ BadStmt S)) := by
+  have hok := stmtOK_of_guards w1
   have wo := wellIndexedOcc_script w1
   unfold parseModel at h
   cases hm : mapE stmtSymbols S with
@@ -239,16 +314,23 @@ theorem parseModel_error_class {S : List Stmt} {e : Err} (h : parseModel S = .er
     | verb q c => simp [stmtSymbols] at hs
     | eqn ts q c =>
       simp only [stmtSymbols] at hs
-      rw [symbolsOfTerms_of_ok (hok _ hst)] at hs
-      obtain ⟨pre, s, post, d, old, h1, h2, h3, h4⟩ := foldE_addSym_error _ _ _ hs
-      have hsub : ∀ x ∈ termSyms q c ts, x ∈ scriptOcc S := fun x hx => stmtOcc_subset hst x hx
-      have hs_mem : s ∈ scriptOcc S := hsub s (by rw [h1]; simp)
-      obtain ⟨_, _, hsumm, _⟩ := fold_from_empty h2
-      obtain ⟨holdn, holdm⟩ := findSym_some h3
-      obtain ⟨r1, r2, r3⟩ := rep_of_summ wo (hsumm old holdm) (by
-        intro x hx; apply hsub; rw [h1]
-        exact List.mem_append_left _ (List.mem_filter.1 hx).1)
-      exact combine_error_rep r1 (rep_of_occ wo hs_mem) holdn r2 r3 h4
+      rcases symbolsOfTerms_cases q c ts (stmtOK_terms (hok _ hst)) with hcase | ⟨hcase, hclash⟩
+      · rw [hcase] at hs
+        cases hfold : foldE addSym [] (termSyms q c ts) with
+        | ok G =>
+          rw [hfold] at hs
+          by_cases hl : (G.filter isDefined).length = 1
+          · simp [hl] at hs
+          · simp only [hl, if_false] at hs; cases hs
+            refine Or.inr ⟨rfl, Or.inr ⟨_, hst, Or.inr ?_⟩⟩
+            intro hone; apply hl; rw [defined_count hfold]; exact hone
+        | error x =>
+          rw [hfold] at hs; cases hs
+          rcases stmt_fold_error_class w1 hst hfold with h' | ⟨h', h''⟩
+          · exact Or.inl h'
+          · exact Or.inr ⟨h', Or.inl h''⟩
+      · rw [hcase] at hs; cases hs
+        exact Or.inr ⟨rfl, Or.inr ⟨_, hst, Or.inl (stmtClash_of_clashT hclash)⟩⟩
   | ok groups =>
     simp only [hm] at h
     unfold mergeModel at h
@@ -266,7 +348,7 @@ theorem parseModel_error_class {S : List Stmt} {e : Err} (h : parseModel S = .er
         obtain ⟨hg1, hg2⟩ := List.mem_filter.1 hg'
         obtain ⟨G, hG, hgG⟩ := List.mem_flatten.1 hg1
         obtain ⟨stmt, hst, hs⟩ := mem1 G hG
-        obtain ⟨_, p2, _, _⟩ := stmt_char hs (hok stmt hst)
+        obtain ⟨_, p2, _, _, _, _⟩ := stmt_char hs (hok stmt hst)
         exact ⟨_, p2 g' hgG hg2, fun s hs' => stmtOcc_subset hst s (List.mem_filter.1 hs').1⟩
       obtain ⟨og, hog, hogsub⟩ := entry g (by rw [h1]; simp)
       obtain ⟨rg, _, _⟩ := rep_of_summ wo hog hogsub
@@ -293,6 +375,8 @@ theorem parseModel_error_class {S : List Stmt} {e : Err} (h : parseModel S = .er
           refine ⟨hosub s hs, ?_⟩
           exact decide_eq_true ⟨g', hg', o, ho, hosub, hs⟩
       obtain ⟨r1, r2, r3⟩ := rep_of_summ wo holdS (fun s hs => (List.mem_filter.1 hs).1)
-      exact combine_error_rep r1 rg holdn r2 r3 h4
+      rcases combine_error_rep r1 rg holdn r2 r3 h4 with h' | ⟨h', h''⟩
+      · exact Or.inl h'
+      · exact Or.inr ⟨h', Or.inl h''⟩
 
 end Fsic.Parser
